@@ -38,6 +38,7 @@ type GenOpts struct {
 	Distributor *cfedistributortypes.GenesisState
 	Vesting     *cfevestingtypes.GenesisState
 	Raw         map[string]json.RawMessage // overrides (already encoded module genesis)
+	Drop        []string                   // modules left out of the genesis altogether (their InitGenesis does not run)
 }
 
 type TestApp struct {
@@ -117,6 +118,9 @@ func BuildGenesis(app *c4eapp.App, genesisState c4eapp.GenesisState, o GenOpts) 
 	}
 	for k, v := range o.Raw {
 		genesisState[k] = v
+	}
+	for _, k := range o.Drop {
+		delete(genesisState, k)
 	}
 	stateBytes, err := json.MarshalIndent(genesisState, "", " ")
 	if err != nil {
